@@ -184,6 +184,11 @@ type Sim struct {
 
 var cur *Sim
 
+// RequireSim makes it an error for instrumented code to start a goroutine while no simulation
+// is running.  A harness whose process runs simulations sets it: a goroutine started outside
+// would otherwise still be running, unowned, when the next simulation begins.
+var RequireSim bool
+
 //go:norace
 func getCur() *Sim { return cur }
 
@@ -304,6 +309,9 @@ func (s *Sim) call(r request) resumeMsg {
 func Go(site int, f func()) {
 	s := cur
 	if s == nil {
+		if RequireSim {
+			panic("simrt: instrumented code started a goroutine outside a simulation (harness error: wrap the call in simrt.Run)")
+		}
 		go f()
 		return
 	}
